@@ -3,6 +3,8 @@ import AdfObdd.ServerProofs
 import AdfObdd.StoreCanon
 import AdfObdd.ServerAnswers
 import AdfObdd.ServerConcreteProofs
+import AdfObdd.ServerHybrid
+import AdfObdd.HybridExample
 /-! # C16 — the web service returns the library's answers through its storage round trip
 
     Theorems about the executable models the correspondence runs compare with the real server:
@@ -411,8 +413,9 @@ def allSix : List Strategy := [.ground, .complete, .stable, .stableCountingA, .s
 `SrvC.libEnv o = SrvC.mkEnv true o` is the environment the driver runs (`Drv/Http.lean` imports the
 definition from `ServerConcrete.lean`): `parse .naive = parseNaive`, `solve = solveAdf`; for HYBRID
 parsing the outcome class is computed (`parseOutcome`) and the stored table is the one adopted from
-the implementation (`o.hyb`) — theorems about hybrid parsing therefore assume `SrvA.Denotes` of the
-adopted table, which the run-time check `storedAdfOK` establishes.
+the implementation (`o.hyb`) — the theorems of THIS section about hybrid parsing assume `SrvA.Denotes` of
+the adopted table; section 9 discharges it (from the printed run-time check `storedAdfOK'`, and for the
+modelled hybrid arm).
 All statements hold in EVERY server state (so in every reachable one). Hypotheses of the form
 "the task `(j, n)` is …, the addressed document exists" describe the moment of the write; in the Rust
 (and the model) a document can be deleted and re-created, or its owner renamed, while a task runs —
@@ -749,7 +752,7 @@ two statements, and the bound hypothesis holds for all six strategies on its fra
 
 The hypotheses "at the moment of the write" of section 7 are consequences of reachability for
 histories without `DELETE /adf/{name}`, `DELETE /users/delete`, `PUT /users/update` (`Event.keeps`);
-with them they are not (`histStale` below, finding D9). -/
+with them they are not (`histStale` below, finding D9); section 10 treats ALL histories. -/
 
 /-- **reachable_results_belong_to_the_code** (any environment): see `ServerReach.lean` -/
 theorem reachable_results_belong_to_the_code {T H A R : Type} [DecidableEq T] (E : Env T H A R) (es : List (Event T))
@@ -837,5 +840,266 @@ def histSrv : List (Event String) :=
        | .ok (a, _) => decide (a.names.length ≤ VBOT) && SrvA.strategyHalts 1000000 a .stableNogood
        | .error _ => false)
   | none => false)
+
+/-! ## 9. hybrid parsing in the service: the check, and the model of the `Parsing::Hybrid` arm
+
+Section 7 adopts the table stored by hybrid parsing from the implementation and ASSUMES `SrvA.Denotes`
+for it. Two repairs (`ServerHybrid.lean`): (a) the run-time check the driver prints for every adopted
+table is now `storedAdfOK'` (= `storedAdfChk`: `storedAdfOK` plus "every root is an index of the table"
+and "every inner node tests a declared statement"), and it IMPLIES `Denotes`; (b) `parseHybrid` models
+the arm itself (`BdAdf::from_parser` + `hybrid_step_opt(false)` over a lawful biodivine library with
+`Bio.DumpSpec`), and what it stores denotes the code. `SrvC.hybEnv` is the service with that arm. -/
+
+section hybrid
+open SrvC
+
+/-- **stored_adf_check_implies_denotes**: a stored ADF for which the driver's check prints `ok` denotes
+the conditions of the submitted text -/
+theorem stored_adf_check_implies_denotes (code : String) (a : SAdf) (h : storedAdfOK' code a = "ok") :
+    ∃ fms, conditions code = .ok (a.names, fms) ∧ SrvA.Denotes a a.names.length fms :=
+  storedAdfOK'_denotes code a h
+
+/-- the new check says `ok` exactly when the Boolean `storedAdfChk` holds, and repeats the old check's
+objection whenever the old check objects -/
+theorem stored_adf_check_messages (code : String) (a : SAdf) :
+    (storedAdfOK' code a = "ok" ↔ storedAdfChk (conditions code) a = true) ∧
+    (storedAdfOK code a ≠ "ok" → storedAdfChk (conditions code) a = false → storedAdfOK' code a = storedAdfOK code a) :=
+  ⟨storedAdfOK'_ok_iff code a, storedAdfOK'_old_message code a⟩
+
+/-- **hybrid_parse_denotes_code**: what the model of the `Parsing::Hybrid` arm stores denotes the
+conditions of the submitted text (lawful library for the declared statements, dump as specified) -/
+theorem hybrid_parse_denotes_code {T : Type} (Lf : Nat → Bio.Lib T) (dumpf : Nat → T → List Node) (key code : String)
+    (a : SAdf) (r : SRes) (h : parseHybrid Lf dumpf key code = .ok (a, r))
+    (W : Bio.Lawful (Lf a.names.length) a.names.length) (hd : Bio.DumpSpec W (dumpf a.names.length)) :
+    ∃ fms, conditions code = .ok (a.names, fms) ∧ SrvA.Denotes a a.names.length fms ∧
+      r = [⟨a.ac, graphOf a.names a.nodes a.ac⟩] :=
+  parseHybrid_denotes Lf dumpf key code a r h W hd
+
+/-- unparseable / panicking code: the hybrid arm reports the error of `conditions`, like the naive one -/
+theorem hybrid_parse_error {T : Type} (Lf : Nat → Bio.Lib T) (dumpf : Nat → T → List Node) (key code : String) (e : Err)
+    (h : conditions code = .error e) : parseHybrid Lf dumpf key code = .error e :=
+  parseHybrid_of_conditions_error Lf dumpf key code e h
+
+/-- the driver's service is the service with the modelled arm whenever the adopted tables are the model's -/
+theorem adopted_service_is_modelled_service {T : Type} (Lf : Nat → Bio.Lib T) (dumpf : Nat → T → List Node) (o : Oracle)
+    (h : ∀ code a r, parseHybrid Lf dumpf (parseKey .hybrid code) code = .ok (a, r) →
+      lookupS (parseKey .hybrid code) o.hyb = some a) :
+    ∀ p code, (libEnv o).parse p code = (hybEnv Lf dumpf).parse p code :=
+  libEnv_eq_hybEnv Lf dumpf o h
+
+/-- **served_answer_for_code_any_parsing** (the final corollary of section 7 for BOTH parsing strategies,
+without a `Denotes` hypothesis): see `SrvC.served_answer_for_code_any_parsing` -/
+theorem served_answer_for_code_any_parsing {T : Type} (Lf : Nat → Bio.Lib T) (dumpf : Nat → T → List Node)
+    (st : State String SHash SAdf SRes) (j n jar : Nat)
+    (t : TaskRec String SAdf) (pg : Parsing) (code : String) (a : SAdf) (r : SRes) (s : Strategy)
+    (ht : nthOf j n st.db.tasks = some t) (hin : t.input = .solve a s)
+    (hlive : t.blockingDone = true ∧ t.written = false)
+    (hparse : (hybEnv Lf dumpf).parse pg code = .ok (a, r)) (hn : pg = .naive → a.names.length ≤ VBOT)
+    (W : Bio.Lawful (Lf a.names.length) a.names.length) (hdump : Bio.DumpSpec W (dumpf a.names.length))
+    (hh : SrvA.strategyHalts 1000000 a s = true)
+    (p : Problem String SAdf SRes) (hp : st.db.problems.find? (isProb t.username t.name) = some p)
+    (hs : st.sess jar = some t.username) :
+    ∃ (fms : List Fm) (res : SRes) (i : Info String SRes),
+      conditions code = .ok (a.names, fms) ∧
+      (ServerM.step (hybEnv Lf dumpf) (ServerM.stepEv (hybEnv Lf dumpf) st (.write j n)).1 ⟨jar, .get t.name⟩).2 =
+        ⟨200, .keep, .problem i⟩ ∧
+      i.res.get s = .some res ∧ (∀ s', s' ≠ s → i.res.get s' = p.res.get s') ∧
+      SrvA.PropAnswer a.names.length (fms.map Fm.sem) s (SrvA.storedI3 res) :=
+  SrvC.served_answer_for_code_any_parsing Lf dumpf st j n jar t pg code a r s ht hin hlive hparse hn W hdump hh p hp hs
+
+/-- … and on the driver's service (adopted tables), from the printed check: see
+`SrvC.served_answer_for_code_hybrid_checked` -/
+theorem served_answer_for_code_hybrid_checked (o : Oracle) (st : State String SHash SAdf SRes) (j n jar : Nat)
+    (t : TaskRec String SAdf) (code : String) (a : SAdf) (r : SRes) (s : Strategy)
+    (ht : nthOf j n st.db.tasks = some t) (hin : t.input = .solve a s)
+    (hlive : t.blockingDone = true ∧ t.written = false)
+    (hparse : (libEnv o).parse .hybrid code = .ok (a, r)) (hchk : storedAdfOK' code a = "ok")
+    (hh : SrvA.strategyHalts 1000000 a s = true)
+    (p : Problem String SAdf SRes) (hp : st.db.problems.find? (isProb t.username t.name) = some p)
+    (hs : st.sess jar = some t.username) :
+    ∃ (fms : List Fm) (res : SRes) (i : Info String SRes),
+      conditions code = .ok (a.names, fms) ∧
+      (ServerM.step (libEnv o) (ServerM.stepEv (libEnv o) st (.write j n)).1 ⟨jar, .get t.name⟩).2 = ⟨200, .keep, .problem i⟩ ∧
+      i.res.get s = .some res ∧ (∀ s', s' ≠ s → i.res.get s' = p.res.get s') ∧
+      SrvA.PropAnswer a.names.length (fms.map Fm.sem) s (SrvA.storedI3 res) :=
+  SrvC.served_answer_for_code_hybrid_checked o st j n jar t code a r s ht hin hlive hparse hchk hh p hp hs
+
+end hybrid
+
+/-! ### non-vacuity of section 9
+
+The Boolean check on the two-statement framework of section 6 (kernel-checked), and - by evaluation, the
+parser on a string literal does not reduce in the kernel - the modelled hybrid arm over the computable
+lawful library `Bio.ttLib` with the dump `Bio.ttDump2` (`Bio.ttDump2_spec : DumpSpec (ttLawful 2) ttDump2`):
+it accepts `code1`, stores a table for the names `a`, `b` that passes the driver's check, and the
+bound hypothesis holds for all six strategies on it. -/
+
+example : storedAdfChk (.ok (["a", "b"], [.not (.atom 1), .not (.atom 0)])) a1 = true := by decide +kernel
+-- a table the OLD check accepted although it does not denote the conditions everywhere: the root of `a`
+-- tests the undeclared variable 7 below the declared ones (the new check objects)
+def tabBad : Array Node := #[⟨VBOT, 0, 0⟩, ⟨VTOP, 1, 1⟩, ⟨7, 1, 0⟩, ⟨1, 2, 0⟩, ⟨0, 1, 0⟩]
+example : storedAdfOKC (.ok (["a", "b"], [.not (.atom 1), .not (.atom 0)])) { names := ["a", "b"], nodes := tabBad, ac := [3, 4] } = "ok" := by
+  decide +kernel
+example : storedAdfChk (.ok (["a", "b"], [.not (.atom 1), .not (.atom 0)])) { names := ["a", "b"], nodes := tabBad, ac := [3, 4] } = false := by
+  decide +kernel
+example : ∃ W : Bio.Lawful (Bio.ttLib 2) 2, Bio.DumpSpec W Bio.ttDump2 := ⟨Bio.ttLawful 2, Bio.ttDump2_spec⟩
+
+#guard (match parseHybrid (fun n => Bio.ttLib n) (fun _ => Bio.ttDump2) "k" code1 with
+  | .ok (a, _) => a.names == ["a", "b"] && a.ac.length == 2 && storedAdfOK' code1 a == "ok" &&
+      allSix.all (fun s => SrvA.strategyHalts 1000000 a s) &&
+      (match solveAdf a .stable with | .ok r => r.length == 2 | .error _ => false)
+  | .error _ => false)
+
+/-! ## 10. every reachable state of EVERY history, with finding D9 as the explicit carve-out
+
+Section 8 excludes the three requests that remove or rename documents. `ServerStale.lean`,
+`ServerProv.lean`, `ServerD9.lean` prove, for ALL histories (any environment):
+
+* `reachable_untainted_belong_to_the_code`: along the history a ghost set of TAINTED keys (user name,
+  problem name) is computed from the observable state changes (`taintRun`); a key becomes tainted exactly
+  in D9's shape - a document appears under it (created, or moved there by a rename) while an unwritten
+  task spawned under that key exists, or while another document already carries it, or it is moved from
+  a tainted key - and is cleared when a document is created under a key with no document and no unwritten
+  task. Every document under an untainted key stores only what belongs to its OWN code.
+* `no_d9_all_belong`, `recreated_clean_belongs`: the two readable corollaries (no D9 shape anywhere /
+  the last creation under this key met no unwritten task of the key).
+* `reachable_results_from_submitted_codes`: even under a tainted key, every stored result is
+  `E.solve a s` for `a = E.parse parsing code` of a (parsing, code) RECORDED FOR THAT KEY: the code of a
+  document that carried the key at some point of the history, or - after a rename `u → u'` - one recorded
+  for the old key. -/
+
+section allHistories
+variable {T H A R : Type} [DecidableEq T]
+
+/-- **reachable_untainted_belong_to_the_code**: see `ServerM.reachable_untainted_belong_to_the_code` -/
+theorem reachable_untainted_belong_to_the_code (E : Env T H A R) (es : List (Event T)) (p : Problem T A R)
+    (hp : p ∈ (runAll E {} es).1.db.problems)
+    (hn : taintRun E {} (fun _ _ => false) es p.username p.name = false) :
+    (∀ a, p.adf = .some a → ∃ r, E.parse p.parsing p.code = .ok (a, r)) ∧
+    (∀ s res, p.res.get s = .some res → ∃ a r, E.parse p.parsing p.code = .ok (a, r) ∧ E.solve a s = .ok res) :=
+  ServerM.reachable_untainted_belong_to_the_code E es p hp hn
+
+/-- **no_d9_all_belong**: histories without D9's shape (deletions, account removals, renames allowed) -/
+theorem no_d9_all_belong (E : Env T H A R) (es : List (Event T)) (hd : NoD9 E {} es) (p : Problem T A R)
+    (hp : p ∈ (runAll E {} es).1.db.problems) :
+    (∀ a, p.adf = .some a → ∃ r, E.parse p.parsing p.code = .ok (a, r)) ∧
+    (∀ s res, p.res.get s = .some res → ∃ a r, E.parse p.parsing p.code = .ok (a, r) ∧ E.solve a s = .ok res) :=
+  ServerM.no_d9_all_belong E es hd p hp
+
+/-- **recreated_clean_belongs**: D9's history shape is the ONLY exception, key by key: if the last event
+that made a document appear under `(u, n)` was not a rename and met no document and NO UNWRITTEN TASK of
+that key, the document under `(u, n)` stores only what belongs to its own code, whatever happened before -/
+theorem recreated_clean_belongs (E : Env T H A R) (es1 es2 : List (Event T)) (e : Event T) (u n : T)
+    (hz : docsAt (runAll E {} es1).1.db u n = 0)
+    (happ : 0 < docsAt (ServerM.stepEv E (runAll E {} es1).1 e).1.db u n)
+    (hpend : pendingAt (runAll E {} es1).1.db u n = false)
+    (hren : renameOf (runAll E {} es1).1 e = none)
+    (hg : NoGrowAt E u n (ServerM.stepEv E (runAll E {} es1).1 e).1 es2)
+    (p : Problem T A R) (hp : p ∈ (runAll E {} (es1 ++ e :: es2)).1.db.problems)
+    (hk : p.username = u ∧ p.name = n) :
+    (∀ a, p.adf = .some a → ∃ r, E.parse p.parsing p.code = .ok (a, r)) ∧
+    (∀ s res, p.res.get s = .some res → ∃ a r, E.parse p.parsing p.code = .ok (a, r) ∧ E.solve a s = .ok res) :=
+  ServerM.recreated_clean_belongs E es1 es2 e u n hz happ hpend hren hg p hp hk
+
+/-- the deletion-free histories of section 8 never show D9's shape: `reachable_results_belong_to_the_code`
+is `no_d9_all_belong` restricted to them -/
+theorem deletion_free_no_d9 (E : Env T H A R) (es : List (Event T)) (hk : ∀ e ∈ es, e.keeps = true) : NoD9 E {} es :=
+  noD9_of_keeps E es {} (Good.init E) hk
+
+/-- **reachable_results_from_submitted_codes**: provenance under EVERY key, tainted or not -/
+theorem reachable_results_from_submitted_codes (E : Env T H A R) (es : List (Event T)) (p : Problem T A R)
+    (hp : p ∈ (runAll E {} es).1.db.problems) (s : Strategy) (res : R) (hr : p.res.get s = .some res) :
+    ∃ x ∈ subsRun E {} (fun _ _ => []) es p.username p.name, x ∈ everCodes E {} es ∧
+      ∃ a r, E.parse x.1 x.2 = .ok (a, r) ∧ E.solve a s = .ok res :=
+  ServerM.reachable_results_from_submitted_codes E es p hp s res hr
+
+end allHistories
+
+/-- **reachable_served_answer_all** (the concrete service with the modelled hybrid arm, BOTH parsing
+strategies, histories with deletions and renames but without D9's shape): see `SrvC.reachable_served_answer_all` -/
+theorem reachable_served_answer_all {T : Type} (Lf : Nat → Bio.Lib T) (dumpf : Nat → T → List Node)
+    (W : ∀ n, Bio.Lawful (Lf n) n) (hdump : ∀ n, Bio.DumpSpec (W n) (dumpf n))
+    (es : List (Event String)) (hd9 : NoD9 (SrvC.hybEnv Lf dumpf) {} es)
+    (jar : Nat) (u name : String) (p : Problem String SAdf SRes) (s : Strategy) (res : SRes)
+    (hs : (runAll (SrvC.hybEnv Lf dumpf) {} es).1.sess jar = some u)
+    (hf : (runAll (SrvC.hybEnv Lf dumpf) {} es).1.db.problems.find? (isProb u name) = some p)
+    (hres : p.res.get s = .some res)
+    (hb : ∀ a r, (SrvC.hybEnv Lf dumpf).parse p.parsing p.code = .ok (a, r) →
+      (p.parsing = .naive → a.names.length ≤ VBOT) ∧ SrvA.strategyHalts 1000000 a s = true) :
+    ∃ (i : Info String SRes) (names : List String) (fms : List Fm),
+      (ServerM.step (SrvC.hybEnv Lf dumpf) (runAll (SrvC.hybEnv Lf dumpf) {} es).1 ⟨jar, .get name⟩).2 = ⟨200, .keep, .problem i⟩ ∧
+      i.code = p.code ∧ i.res.get s = .some res ∧
+      conditions p.code = .ok (names, fms) ∧
+      SrvA.PropAnswer names.length (fms.map Fm.sem) s (SrvA.storedI3 res) :=
+  SrvC.reachable_served_answer_all Lf dumpf W hdump es hd9 jar u name p s res hs hf hres hb
+
+/-- **reachable_served_answer_checked** (the DRIVER's service, every history, BOTH parsing strategies): if
+the key of the document `GET` finds is untainted, the result shown under `s` is the definitional answer
+for the framework its own code denotes - given that every adopted hybrid table passed the printed check
+`storedAdfOK'`. See `SrvC.reachable_served_answer_checked`; with `taintRun_noD9` (no D9 shape at all) or
+`recreated_clean_belongs` (per key) the taint hypothesis becomes a statement about the history's shape. -/
+theorem reachable_served_answer_checked (o : SrvC.Oracle)
+    (hchk : ∀ code a, SrvC.lookupS (SrvC.parseKey .hybrid code) o.hyb = some a → storedAdfOK' code a = "ok")
+    (es : List (Event String)) (jar : Nat) (u name : String) (p : Problem String SAdf SRes) (s : Strategy) (res : SRes)
+    (hs : (runAll (SrvC.libEnv o) {} es).1.sess jar = some u)
+    (hf : (runAll (SrvC.libEnv o) {} es).1.db.problems.find? (isProb u name) = some p)
+    (hclean : taintRun (SrvC.libEnv o) {} (fun _ _ => false) es u name = false)
+    (hres : p.res.get s = .some res)
+    (hb : ∀ a r, (SrvC.libEnv o).parse p.parsing p.code = .ok (a, r) →
+      (p.parsing = .naive → a.names.length ≤ VBOT) ∧ SrvA.strategyHalts 1000000 a s = true) :
+    ∃ (i : Info String SRes) (names : List String) (fms : List Fm),
+      (ServerM.step (SrvC.libEnv o) (runAll (SrvC.libEnv o) {} es).1 ⟨jar, .get name⟩).2 = ⟨200, .keep, .problem i⟩ ∧
+      i.code = p.code ∧ i.res.get s = .some res ∧
+      conditions p.code = .ok (names, fms) ∧
+      SrvA.PropAnswer names.length (fms.map Fm.sem) s (SrvA.storedI3 res) :=
+  SrvC.reachable_served_answer_checked o hchk es jar u name p s res hs hf hclean hres hb
+
+/-! the hypotheses of `reachable_served_answer_checked` on a concrete history of the concrete service WITH a
+deletion and a re-creation (by evaluation; the parser on a string literal does not reduce in the kernel):
+the document is deleted after its parse task has written, re-created with hybrid parsing from the table the
+modelled hybrid arm produces (which passes the check), solved; the key is untainted at the end -/
+def oHyb : SrvC.Oracle :=
+  { hyb := match parseHybrid (fun n => Bio.ttLib n) (fun _ => Bio.ttDump2) (SrvC.parseKey .hybrid code1) code1 with
+      | .ok (a, _) => [(SrvC.parseKey .hybrid code1, a)]
+      | .error _ => [] }
+
+def histSrvDel : List (Event String) :=
+  [.req ⟨0, .register "u" "pw" 0⟩, .req ⟨0, .login "u" "pw"⟩, .req ⟨0, .add "p" (some code1) none .naive "~t" "~p"⟩,
+   .finish 0 0, .write 0 0, .req ⟨0, .delete "p"⟩, .req ⟨0, .add "p" (some code1) none .hybrid "~t" "~p"⟩,
+   .finish 0 1, .write 0 1, .req ⟨0, .solve "p" .stable⟩, .finish 0 2, .write 0 2]
+
+#guard oHyb.hyb.all (fun x => storedAdfOK' code1 x.2 == "ok") && oHyb.hyb.length == 1
+#guard taintRun (SrvC.libEnv oHyb) {} (fun _ _ => false) histSrvDel "u" "p" == false
+#guard (match (runAll (SrvC.libEnv oHyb) {} histSrvDel).1.db.problems.find? (isProb "u" "p") with
+  | some p => p.parsing == .hybrid && (match p.res.get .stable with | .some r => r.length == 2 | _ => false)
+  | none => false)
+
+/-! ### non-vacuity of section 10 (the toy library `Etoy` of section 8) -/
+
+-- D9's history: the key (1, 5) IS tainted at the end, and the shape shows at the re-creation (5th event)
+example : taintRun Etoy {} (fun _ _ => false) histStale 1 5 = true := by decide
+example : d9Shape Etoy (runAll Etoy {} (histStale.take 4)).1 (.req ⟨0, .add 5 (some 8) none .naive 100 101⟩) 1 5 = true := by decide
+-- … and even there the stored framework 7 is the parse result of a code recorded for the key
+example : subsRun Etoy {} (fun _ _ => []) histStale 1 5 = [(.naive, 7), (.naive, 8), (.naive, 8), (.naive, 8)] := by decide
+
+/-- delete AFTER the parse task has written, re-create with another code, solve; then rename the account
+(1 → 2) and solve again under the new name: deletions and renames, no D9 shape -/
+def histRecreate : List (Event Nat) :=
+  [.req ⟨0, .register 1 7 0⟩, .req ⟨0, .login 1 7⟩, .req ⟨0, .add 5 (some 7) none .naive 100 101⟩,
+   .finish 0 0, .write 0 0, .req ⟨0, .delete 5⟩, .req ⟨0, .add 5 (some 8) none .naive 100 101⟩, .finish 0 1, .write 0 1,
+   .req ⟨0, .solve 5 .ground⟩, .finish 0 2, .write 0 2, .req ⟨0, .update 2 7 0⟩, .req ⟨0, .solve 5 .complete⟩,
+   .finish 0 3, .write 0 3]
+
+example : NoD9 Etoy {} histRecreate := noD9b_sound Etoy _ _ (by decide)
+example : (runAll Etoy {} histRecreate).1.db.problems.map (fun p => (p.username, p.code, p.adf, p.res.ground, p.res.complete)) =
+    [(2, 8, .some 8, .some 108, .some 108)] := by decide
+-- the hypotheses of `recreated_clean_belongs` at the re-creation (7th event) for the key (1, 5)
+example : docsAt (runAll Etoy {} (histRecreate.take 6)).1.db 1 5 = 0 ∧
+    0 < docsAt (ServerM.stepEv Etoy (runAll Etoy {} (histRecreate.take 6)).1 (.req ⟨0, .add 5 (some 8) none .naive 100 101⟩)).1.db 1 5 ∧
+    pendingAt (runAll Etoy {} (histRecreate.take 6)).1.db 1 5 = false ∧
+    renameOf (runAll Etoy {} (histRecreate.take 6)).1 (.req ⟨0, .add 5 (some 8) none .naive 100 101⟩) = none ∧
+    NoGrowAt Etoy 1 5 (ServerM.stepEv Etoy (runAll Etoy {} (histRecreate.take 6)).1 (.req ⟨0, .add 5 (some 8) none .naive 100 101⟩)).1
+      [.finish 0 1, .write 0 1, .req ⟨0, .solve 5 .ground⟩, .finish 0 2, .write 0 2] := by
+  refine ⟨by decide, by decide, by decide, by decide, by decide, by decide, by decide, by decide, by decide, trivial⟩
 
 end C16
